@@ -1,0 +1,39 @@
+//go:build verif
+
+package ige
+
+// Direction-explicit variants of Encrypt / Decrypt for the in-process reference server of the
+// verification harness: Encrypt always derives the client-to-server key (x = 0) and Decrypt the
+// server-to-client key (x = 8); a server needs the opposite pairing.
+
+// VerifEncryptDir encrypts msg (zero padded to the block size) with the key derived from
+// sha1(msg)[4:20]; fromServer selects the server-to-client derivation. Returns msg_key, ciphertext.
+func VerifEncryptDir(msg, key []byte, fromServer bool) (msgKey, out []byte, err error) {
+	msgKey = MessageKey(msg)
+	aesKey, aesIV := generateAESIGE(msgKey, key, fromServer)
+	data := make([]byte, len(msg)+((16-(len(msg)%16))&15))
+	copy(data, msg)
+	c, err := NewCipher(aesKey, aesIV)
+	if err != nil {
+		return nil, nil, err
+	}
+	out = make([]byte, len(data))
+	if err := c.doAES256IGEencrypt(data, out); err != nil {
+		return nil, nil, err
+	}
+	return msgKey, out, nil
+}
+
+// VerifDecryptDir decrypts msg with the key derived from msgKey; fromServer as above.
+func VerifDecryptDir(msg, key, msgKey []byte, fromServer bool) ([]byte, error) {
+	aesKey, aesIV := generateAESIGE(msgKey, key, fromServer)
+	c, err := NewCipher(aesKey, aesIV)
+	if err != nil {
+		return nil, err
+	}
+	out := make([]byte, len(msg))
+	if err := c.doAES256IGEdecrypt(msg, out); err != nil {
+		return nil, err
+	}
+	return out, nil
+}
